@@ -33,6 +33,7 @@ FIsFinite(a)     == CHOOSE x \in BOOLEAN : TRUE
 FIsNaN(a)        == CHOOSE x \in BOOLEAN : TRUE
 FClose(a, b, scale) == CHOOSE x \in BOOLEAN : TRUE   \* |a-b| <= 1e-9*|scale| + 1e-12
 FCloseTol(a, b, rel) == CHOOSE x \in BOOLEAN : TRUE  \* |a-b| <= rel*max(1,|a|,|b|)
+FRelClose(a, b, rel) == CHOOSE x \in BOOLEAN : TRUE  \* |a-b| <= rel*max(|a|,|b|), no absolute floor
 FStr(a)          == CHOOSE x \in {} : TRUE   \* decimal rendering, for messages only
 FToInt(a)        == CHOOSE x \in {} : TRUE
 
